@@ -5,7 +5,8 @@ from tools/unclaimed.json (default: not built yet)."""
 import json, subprocess, os
 root = os.path.dirname(os.path.dirname(os.path.abspath(__file__)))
 props = [json.loads(l) for l in open(os.path.join(root, 'properties.jsonl'))]
-checks = json.load(open(os.path.join(root, 'tools', 'checks.json')))
+import glob
+checks = {os.path.basename(f)[:-5]: json.load(open(f)) for f in sorted(glob.glob(os.path.join(root, 'tools', 'checks.d', 'C*.json')))}
 unclaimed = json.load(open(os.path.join(root, 'tools', 'unclaimed.json')))
 hooks = subprocess.run(['git', '-C', '/repo', 'log', '--format=%H %s'], capture_output=True, text=True).stdout.splitlines()
 hook_commits = [l.split()[0] for l in hooks if l.split(' ', 1)[1].startswith('verif hooks:')]
